@@ -613,8 +613,9 @@ def generate(rng, tier, index):
     for k_op in range(rng.randint(1, 6)):
         kind = rng.choices(
             ["call", "emit", "reopen-all", "reopen", "close-all", "drop",
-             "gc", "advance", "close-all-fault", "ext-rotate"],
-            [30, 20, 12, 8, 8, 10, 5, 7, 4, 5])[0]
+             "gc", "advance", "close-all-fault", "ext-rotate",
+             "reopen-all-fault"],
+            [30, 20, 12, 8, 8, 10, 5, 7, 4, 5, 3])[0]
         if k_op == 0 and rng.random() < 0.8:
             kind = "call"
         if kind in ("call", "reopen", "drop", "ext-rotate"):
@@ -637,7 +638,22 @@ def generate(rng, tier, index):
     plainfile = [li for li, lg in enumerate(loggers) if any(
         h["path"] not in ("STDOUT", "STDERR") and not h.get("max_size")
         and not h.get("when") for h in lg["handlers"])]
-    if plainfile and rng.random() < 0.12:
+    if plainfile and rng.random() < 0.08:
+        # scripted skeleton: reopening fails for one handler (its path is
+        # not a file for a moment), the obstacle goes away, and the
+        # registry is used again: the handler is still alive, still attached
+        # and still one of the files to reopen / close
+        li = rng.choice(plainfile)
+        history = [{"op": "call", "i": li}, {"op": "reopen-all-fault"}]
+        if rng.random() < 0.5:
+            history.append({"op": "emit", "i": li, "level": 50,
+                            "msg": "plain"})
+        history.append(rng.choice([{"op": "reopen-all"},
+                                   {"op": "close-all"},
+                                   {"op": "reopen", "i": li}]))
+        if rng.random() < 0.5:
+            history.append({"op": "reopen-all"})
+    elif plainfile and rng.random() < 0.12:
         # scripted skeleton: the log file is moved away (or the link it is
         # reached through is re-pointed) by an external rotation, then the
         # application is told to reopen its log files: records written
@@ -711,9 +727,20 @@ def generate(rng, tier, index):
     elif not any(lg["kind"] == "eventlog" for lg in loggers) \
             and rng.random() < 0.15:
         entry = "configure-loggers"       # ZConfig.configureLoggers(text)
+    env_levels = []
+    if rng.random() < 0.12:
+        # the application (or a library) has registered level names of its
+        # own with the logging package, some of them spelled like the
+        # documented names: the documented numbers are what the component
+        # promises
+        env_levels = rng.sample([[9, "TRACE"], [2, "ALL"], [16, "BLATHER"],
+                                 [35, "WARN"], [45, "FATAL"], [25, "NOTICE"],
+                                 [11, "debug"], [21, "Info"]],
+                                rng.randint(1, 3))
     return {"prop": ID, "tag": tag,
             "epoch": float(rng.randint(1500000000, 1900000000)),
-            "loggers": loggers, "ops": history, "entry": entry}
+            "loggers": loggers, "ops": history, "entry": entry,
+            "env_levels": env_levels}
 
 
 # ---------------------------------------------------------------------------
@@ -766,10 +793,14 @@ def execute(plan):
              "loggerDict": dict(logging.Logger.manager.loggerDict),
              "time": time.time, "stdout": sys.stdout, "stderr": sys.stderr,
              "raise": logging.raiseExceptions, "gc": gc.isenabled(),
-             "reopenable": loghandler._reopenable_handlers[:]}
+             "reopenable": loghandler._reopenable_handlers[:],
+             "levelnames": (dict(logging._levelToName),
+                            dict(logging._nameToLevel))}
     recs = []
     clock = Clock(plan["epoch"])
     try:
+        for num, name in plan.get("env_levels") or ():
+            logging.addLevelName(num, name)
         gc.collect()
         gc.disable()
         del loghandler._reopenable_handlers[:]
@@ -787,6 +818,10 @@ def execute(plan):
                 sys.stdout, sys.stderr = saved["stdout"], saved["stderr"]
         time.tzset()
     finally:
+        logging._levelToName.clear()
+        logging._levelToName.update(saved["levelnames"][0])
+        logging._nameToLevel.clear()
+        logging._nameToLevel.update(saved["levelnames"][1])
         time.time = saved["time"]
         sys.stdout, sys.stderr = saved["stdout"], saved["stderr"]
         for r in recs:
@@ -1332,6 +1367,47 @@ def _execute(plan, out, scratch, w, clock, recs):
                     continue
                 out["fired"]["external-rotation"] = out["fired"].get(
                     "external-rotation", 0) + 1
+        elif kind == "reopen-all-fault":
+            # fault injection: for one registered plain file handler with an
+            # open stream the configured path is, for a moment, a directory
+            # (its file was moved away): reopening it fails with OSError.
+            # The obstacle is removed right afterwards.  The handler is
+            # still alive and attached, so it is still one of "the file
+            # handlers still alive" for every later reopen / close.
+            victim = None
+            for wr in loghandler._reopenable_handlers:
+                hh = wr()
+                if (type(hh) is loghandler.FileHandler
+                        and hh.stream is not None and not hh.delay
+                        and os.path.isfile(hh.baseFilename)
+                        and not os.path.islink(hh.baseFilename)):
+                    victim = hh
+                    break
+                del hh
+            if victim is not None:
+                vp = victim.baseFilename
+                rotations[0] += 1
+                os.rename(vp, vp + ".moved%d" % rotations[0])
+                os.mkdir(vp)
+                try:
+                    loghandler.reopenFiles()
+                    probe("reopen-fault-not-raised")
+                except OSError:
+                    out["fired"]["reopen-eisdir"] = out["fired"].get(
+                        "reopen-eisdir", 0) + 1
+                except Exception as e:
+                    violation("reopen-all", "raised", "reopenFiles() with an "
+                              "unusable path raised %s"
+                              % ops.brief(ops.failure(e)), step)
+                finally:
+                    os.rmdir(vp)
+                for r in recs:
+                    hh = r.ref()
+                    if hh is not None and getattr(hh, "_closed", False) \
+                            and hh is not victim:
+                        r.closed = True
+                    del hh
+                del victim
         elif kind == "close-all-fault":
             # fault injection: the disk is full for one registered handler
             # (its flush raises ENOSPC once) while closeFiles() runs.  The
